@@ -133,13 +133,11 @@ def t_refseq():
                   job_id="j", job_name="n"),
     }
     s = refseq.expected_pv(spans, False)
-    assert s["a"]["previousEventIds"] == [] and \
-        s["b"]["previousEventIds"] == ["a"] and \
-        s["c"]["previousEventIds"] == ["b"] and \
-        s["r"]["previousEventIds"] == ["c"], s
+    prev = {k: sorted(v["previousEventIds"]) for k, v in s.items()}
+    assert prev == {"a": [], "b": ["a"], "c": ["b"], "r": ["c"]}, prev
     s = refseq.expected_pv(spans, True)
-    assert sorted(s["c"]["previousEventIds"]) == ["a", "b"], s
-    assert s["a"]["previousEventIds"] == [] == s["b"]["previousEventIds"]
+    prev = {k: sorted(v["previousEventIds"]) for k, v in s.items()}
+    assert prev == {"a": [], "b": [], "c": ["a", "b"], "r": ["c"]}, prev
     return {"refseq_examples": 2}
 
 
